@@ -280,6 +280,36 @@ pub fn run(o: &Opts, deck: &str) -> String {
                     })
                     .collect();
                 out.line(&format!("utree {} | {}", ntrees + 500_000, toks.join(" ")));
+                // one site only: a traverser action with a denormal probability leading to an opponent node whose sampled
+                // action has a denormal weight, everything else as the profile has it.  The counterfactual value of that
+                // action overflows to +inf while the expected value stays finite: the recorded regret must be REGRET_MAX
+                'site: for ix in graph.node_indices() {
+                    let h = Node::from((ix, graph));
+                    if h.player() != walker || h.children().len() < 2 { continue; }
+                    for c in h.children().into_iter().skip(1) {
+                        if c.player() == walker || c.player() == Player::chance() || c.children().is_empty() { continue; }
+                        let (hb, cb) = (h.bucket(), c.bucket());
+                        let a = u64::from(*c.incoming().unwrap());
+                        let e = u64::from(*c.children()[0].incoming().unwrap());
+                        let hk = (u64::from(hb.0), u64::from(hb.1), u64::from(hb.2));
+                        let ck = (u64::from(cb.0), u64::from(cb.1), u64::from(cb.2));
+                        let rows5: Vec<(u64, u64, u64, u64, f32, f32)> = profile.verif_rows().into_iter().map(|r| {
+                            let k = (r.0, r.1, r.2);
+                            if k == hk { (r.0, r.1, r.2, r.3, r.4, if r.3 == a { f32::from_bits(27_000) } else { 1.0 }) }
+                            else if k == ck { (r.0, r.1, r.2, r.3, r.4, if r.3 == e { f32::from_bits(27_000) } else { 1.0 }) }
+                            else { r }
+                        }).collect();
+                        let mut q5 = Profile::verif_from_rows(&rows5);
+                        q5.verif_set_epochs(profile.epochs());
+                        let toks: Vec<String> = infos.iter().map(|info| {
+                            let r = catch(|| q5.regret_vector(info));
+                            format!("I{}|{}|{}", bkey(info.node().bucket()), info.roots().len(),
+                                r.map(|m| m.iter().map(|(e, v)| format!("{}={}", edge_tok(e), v.to_bits())).collect::<Vec<_>>().join(",")).unwrap_or("P".into()))
+                        }).collect();
+                        out.line(&format!("utree {} | {}", ntrees + 900_000, toks.join(" ")));
+                        break 'site;
+                    }
+                }
                 // the same traverser strategy with an ordinary opponent: every reach is a normal number except the
                 // traverser's own, which never enters the estimator -- a full `tree` line
                 let rows4: Vec<(u64, u64, u64, u64, f32, f32)> = {
@@ -303,6 +333,33 @@ pub fn run(o: &Opts, deck: &str) -> String {
                 out.line(&dump_view(&t, tree_walker(&q4), &q4, q4.epochs(), false, false, &dumped4).replacen(" | ", &format!(" {} | ", ntrees), 1));
             }
         }
+    }
+    // a counterfactual value that overflows while the expected value stays finite: the opponent opens with an all-in his
+    // strategy gives a weight of 1e-37, the traverser calls and wins 100 chips (100 / 1e-37 overflows binary32) or folds
+    // (2 / 1e-37 does not).  The recorded regret of calling must be the finite clamp REGRET_MAX.
+    for attempt in 0..40 {
+        let mut profile = Profile::default();
+        let tree = match catch(|| deep_es_tree(&mut profile, &[vec![Edge::Shove]])) { Some(Some(t)) => t, _ => continue };
+        let walker = profile.walker();
+        let won = tree.all().iter().any(|n| n.children().is_empty() && n.history().len() > 2 && catch(|| n.payoff(&walker)).map(|x| x > 50.0).unwrap_or(false));
+        if !won { continue; }
+        let root_b = { let r = tree.at(petgraph::graph::NodeIndex::new(0)); let b = r.bucket(); (u64::from(b.0), u64::from(b.1), u64::from(b.2)) };
+        let shove = u64::from(Edge::Shove);
+        let fold = u64::from(Edge::Fold);
+        let infos: Vec<Info> = Vec::<Info>::from(Partition::from(tree));
+        let rows: Vec<(u64, u64, u64, u64, f32, f32)> = profile.verif_rows().into_iter().map(|r| {
+            if (r.0, r.1, r.2) == root_b { (r.0, r.1, r.2, r.3, r.4, if r.3 == shove { 1e-37 } else { 1.0 }) }
+            else { (r.0, r.1, r.2, r.3, r.4, if r.3 == fold { 1.0 } else { 1e-30 }) }
+        }).collect();
+        let mut q = Profile::verif_from_rows(&rows);
+        q.verif_set_epochs(profile.epochs());
+        let toks: Vec<String> = infos.iter().map(|info| {
+            let r = catch(|| q.regret_vector(info));
+            format!("I{}|{}|{}", bkey(info.node().bucket()), info.roots().len(),
+                r.map(|m| m.iter().map(|(e, v)| format!("{}={}", edge_tok(e), v.to_bits())).collect::<Vec<_>>().join(",")).unwrap_or("P".into()))
+        }).collect();
+        out.line(&format!("utree {} | {}", 950_000 + attempt, toks.join(" ")));
+        break;
     }
     let lines = out.finish();
     format!("{{\"lines\":{},\"trees\":{},\"nodes\":{},\"trees_with_multi_node_infosets\":{},\"trees_sampled_to_find_them\":{}}}", lines, ntrees, nnodes, multi, tried)
